@@ -18,8 +18,8 @@ func init() {
 		Title: "Date ordering and arithmetic agree with the calendar",
 		Run:   runC07,
 		Explanation: "C07.order: Before, After and Equal are evaluated by predicate abstraction over all 27 orderings of (year, month, day): in every ordering exactly one of the three holds and it is the lexicographic order of the triple; side condition audited: the fields are used only in comparisons against the same field of the other operand; IsZero ⇔ all fields 0. The stored year is a strictly monotone image of the reported one: every read of the year (Year, Date, Time) adds 1 after widening, at a width above the field's 32 bits (obligation year wrap; on 32-bit targets int is that narrow: known finding). With that, lexicographic = chronological. " +
-			"C07.deleg: Time() = time.Date(y+1, m+1, d+1, 0,0,0,0, UTC); FromTime calls Date() on the parameter itself (not t.UTC()/In/Local) and maps IsZero to the zero date; Sub = d.Time().Sub(e.Time()) (not swapped); DaysBetween derives from the same difference divided by 24 hours; Add passes (years, months, days) to AddDate in the same positions; AddDuration → Time.Add; both wrap with FromTime; New = FromTime(time.Date(y, m, d, 0…, UTC)); Scan/Value delegate to FromTime/Time.",
-		NotDecided:  []string{"the calendar arithmetic itself (inside package time)", "float rounding in Hours()/24 and the range of time.Duration"},
+			"C07.deleg: Time() = time.Date(y+1, m+1, d+1, 0,0,0,0, UTC); FromTime calls Date() on the parameter itself (not t.UTC()/In/Local) and maps IsZero to the zero date; Sub = d.Time().Sub(e.Time()) (not swapped); DaysBetween derives from the same difference divided by 24 hours; Add passes (years, months, days) to AddDate in the same positions; AddDuration → Time.Add; both wrap with FromTime; New = FromTime(time.Date(y, m, d, 0…, UTC)); Scan/Value delegate to FromTime/Time. The year-wrap obligation follows every arithmetic operation on a value read from the year field in Year/Date/Time and their callees; FromTime's stores must not pass through a type narrower than the field.",
+		NotDecided:  []string{"the calendar arithmetic itself (inside package time)", "float rounding in Hours()/24 and the range of time.Duration", "calendar years outside the int32 year field wrap in New/FromTime/Add, which have no error result (the property speaks of dates the type can hold)"},
 		Assumptions: []string{"time.Date/AddDate/Add/Sub implement the proleptic Gregorian calendar"},
 		Technique:   "exhaustive predicate abstraction over field orderings + delegation dataflow over go/ssa",
 	})
@@ -528,6 +528,8 @@ func ruleFromTime(e *Env, rule string, a *dateAbs) {
 					if z, ok := intOf(fields[k]); ok && z == 0 {
 						e.S.Ok(rule, site, c2, name+" := 0 (zero time ↦ zero date)", e.Pos(fn))
 					} else {
+						// (not redundant: the zero instant shown in a location west of UTC is December 31 of year 0;
+						// seeded change C07-r4-3 deletes the branch and the audit's "behaviour-preserving" was wrong)
 						e.S.Bad(rule, site, c2, fmt.Sprintf("for the zero time %s is set to %v, not 0: the zero time no longer maps to the zero date", name, fields[k]), e.Pos(fn), "time.Time{}")
 					}
 					continue
